@@ -27,10 +27,10 @@ ENGINE = {'name': 'mcodec',
               'modules/l4winbox/matcher.go: MessageAuth FromBytes/FromChunks/ToChunks/ToBytes, GetRoMON/GetUsername, MessageAuthUsernameRegexp (as a byte-class function), Match with modes/username/username_regexp',
               'modules/l4rdp/matcher.go: TPKTHeader/X224Crq/RDPNegReq/RDPCorrInfo/RDPToken FromBytes+ToBytes, Match with cookie/token/custom-info blocks, strconv.ParseUint, strings.Split, netip.Prefix.Contains (IPv4)',
               'not modelled: placeholders in filter strings, replacer side effects (l4.rdp.*, l4.winbox.username), Caddyfile parsing (C15), Provision errors'],
- 'assumptions': ['winbox No-stability is proved for streams whose first chunk is not full (user names up to 220 bytes); for two-chunk messages '
-                 'it rests on the engine, which evaluates every prefix of two-chunk messages with 219..255-byte user names',
-                 'rdp C14: the framing (TPKT + X.224 CR) is proved against the reference encoder for all inputs; the payload decision '
-                 '(cookie/token/custom info/negotiation request/correlation info and their filters) is tied by correspondence and concrete examples',
+ 'assumptions': ['rdp C14: Match = Yes is characterised for every byte string (framing + split of the payload at the first CR LF + tail reference); '
+                 'the routing element is characterised per kind (none, cookie, custom info, routing token) for elements whose text has no CR byte, '
+                 'custom infos that do not start with the cookie prefix or the byte 03, and token cookies with 4..17 decimal digits in total; '
+                 'other routing elements are covered by correspondence only',
                  'user-supplied regular expressions enter the matcher models as arbitrary functions list byte -> bool (theorems hold for every expression)',
                  'filter strings contain no placeholders and are shorter than 65536 bytes',
                  'WireGuard transport Content and RDP token Optional: nil and empty slices are identified']}
